@@ -40,16 +40,19 @@ RULE = ("a case is a script of port-mods, link-down marks and 1..3 deliveries (p
         "down, NO_FWD, NO_FLOOD under FLOOD), or (d) arrives on a port that is receive-disabled for it or is dropped at a down ingress port, or (e) misses the "
         "table on a NO_PACKET_IN port, or (f) emits after a field-modify action that is not applicable to the frame (nw/tp rewrite on "
         "ARP, on a 0x9100/0x88a8 frame that only resembles tagged IPv4, tp rewrite on ICMP ...), or (g) has a transmit failure fire in a "
-        "delivery that is followed by a judged one, or (h) releases a buffer by packet-out; distinct by SHA-1 of the canonical JSON of the case")
+        "delivery that is followed by a judged one, or (h) releases a buffer by packet-out, or (i) must emit a datagram whose transport checksum "
+        "computes to zero (UDP 0xffff, TCP 0x0000); distinct by SHA-1 of the canonical JSON of the case")
 ASSUMPTIONS = [
-  "frames carry valid checksums and consistent lengths and no link-layer trailer (the generator builds them with ref/frames.py; the validator re-checks every input frame)",
+  "frames carry valid checksums and consistent lengths (the generator builds them with ref/frames.py and ref/frames12.py; the validator re-checks every input frame); "
+  "a link-layer trailer behind an IPv4/IPv6/ARP packet (padding to 60 octets, or a few octets) is part of the frame: it must come out again and no length or checksum covers it",
+  "IPv6 (no extension headers; UDP, TCP, ICMPv6 echo) is an 'other' EtherType to OpenFlow 1.0: VLAN and dl rewrites apply, nw/tp rewrites are not applicable",
   "output to the ingress port's own number is dropped; OFPP_IN_PORT is needed to send back (OpenFlow 1.0.0 section 3.3)",
   "ambiguous zones, judged only for 'no exception' and port guards: OFPP_TABLE from a flow entry and anything after an OFPP_TABLE output, OFPP_NORMAL/OFPP_LOCAL, "
   "nw/tp rewrites on IPv4 behind two tags or in SNAP, nw_src/nw_dst/tp rewrites on first fragments of TCP/UDP, enqueue to virtual ports",
   "0x8100 is the only VLAN TPID of OpenFlow 1.0: a frame of EtherType 0x9100 / 0x88a8 / 0x9200 / ... is untagged and not IPv4 whatever its payload looks like (set_vlan_* push a 0x8100 tag in front, strip_vlan is a no-op)",
   "a field-modify action that 1.0 defines 'only for IPv4 / TCP / UDP packets' and meets another frame (ARP, other EtherTypes, ICMP or a later fragment for tp rewrites) may touch no byte: "
   "either the list goes on with the frame unchanged or the datapath stops executing the list at that action; both are accepted, anything else is a violation (label inapplicable:*)",
-  "set_nw_tos may either replace the 6 DSCP bits (keeping the packet's 2 low bits) or the whole octet; a UDP checksum of 0 may stay 0 or be filled in: either reading is accepted, consistently within a case",
+  "set_nw_tos may either replace the 6 DSCP bits (keeping the packet's 2 low bits) or the whole octet; a UDP checksum of 0 (none) must stay 0 when the datagram is merely forwarded; when an nw/tp rewrite touches what it would cover it may stay 0 or be filled in",
   "a frame arriving on a port that is administratively down or link-down may be processed or dropped; frames dropped by NO_RECV/NO_RECV_STP may or may not be counted in rx_packets/rx_bytes; "
   "rx counters may or may not count OFPP_TABLE lookups; tx counters must equal exactly what was emitted",
   "OFPPC_NO_PACKET_IN must suppress table-miss packet-ins; whether it suppresses packet-ins of an explicit output to OFPP_CONTROLLER is left open (all or none accepted)",
@@ -61,7 +64,7 @@ ASSUMPTIONS = [
   "a packet-out releasing it carries the in_port the packet-in reported; only buffers of judged deliveries are released",
   "'other' frames are 802.3/LLC, SNAP (OUI 0 + IPv4/ARP PID with a well-formed packet of that kind, or a PID nothing dissects, or another OUI with opaque bytes), well-formed LLDP and EAPOL-Start/Logoff, RARP, "
   "and EtherTypes / IP protocols the packet library does not dissect: never random bytes under a type some dissector claims; "
-  "IPv6, IGMP, GRE, MPLS and malformed payloads of dissected protocols are left to C14/C15",
+  "IPv6 extension headers, IGMP, GRE, MPLS and malformed payloads of dissected protocols are left to C14/C15",
 ]
 EXHAUSTIVE_SCOPE = {
   "quick": "all 64 x 64 combinations of {PORT_DOWN, NO_RECV, NO_RECV_STP, NO_FLOOD, NO_FWD, NO_PACKET_IN} on ingress port 1 and egress port 2 of a 3-port switch (set by port-mod), "
@@ -70,7 +73,10 @@ EXHAUSTIVE_SCOPE = {
            "and 8 first deliveries x 44 changes in between (each of the 6 config bits set / cleared by port-mod on port 1, 2 or 3, link down / up on each, one failing transmit, nothing) x 8 second deliveries "
            "(flow FLOOD / ALL / FLOOD of an STP frame / [set_dl_dst, 2, IN_PORT, CONTROLLER], packet-out FLOOD / ALL / TABLE, table miss); "
            "and 18 TCP option layouts (every option kind as the last option ending exactly at the data offset, NOP and EOL padding variants) x payload {none, even, odd} x {untagged, tagged} x {no rewrite, set_nw_src/dst/tos, set_tp_src/dst} x {flow, packet-out}; "
-           "and [CONTROLLER, one of the 10 field-modify actions, output:2] on 4 frames x {flow, packet-out} x max_len {0, 0xffff} followed by a packet-out releasing the announced buffer with 3 lists, plus table-miss buffers",
+           "and [CONTROLLER, one of the 10 field-modify actions, output:2] on 4 frames x {flow, packet-out} x max_len {0, 0xffff} followed by a packet-out releasing the announced buffer with 3 lists, plus table-miss buffers; "
+           "and UDP and TCP datagrams whose checksum computes to zero as they arrive or after one of set_nw_src / set_nw_dst / set_tp_src / set_tp_dst, the free word being the first payload word, the source or the destination port, "
+           "x even / odd payload x {untagged, tagged} x {flow, packet-out}, and over IPv6 for plain output; "
+           "and IPv4 UDP/TCP/ICMP, IPv6 UDP/TCP and ARP frames x {untagged, tagged} x {padded to 60 octets, 3-octet non-zero trailer} x {no rewrite, 6 rewrites} x {flow, packet-out} plus table miss",
   "thorough": "as quick, additionally with a tagged TCP frame and the list [strip_vlan, ALL, set_tp_dst, output:2, set_nw_dst, FLOOD, enqueue:2, CONTROLLER]",
 }
 
@@ -233,6 +239,10 @@ def frame_class(frame):
           break
     elif k == "udp" and "udp" in d and (d["udp"]["sport"] in _SPECIAL_UDP or d["udp"]["dport"] in _SPECIAL_UDP):
       k = "udp-app-port"
+    elif k == "udp" and "udp" in d and d["udp"]["checksum"] == 0:
+      k = "udp-csum0"
+  elif et == F12.ETH_IPV6 and F12.dissect6(frame) is not None:
+    k = "ipv6-" + {6: "tcp", 17: "udp", 58: "icmp"}.get(F12.dissect6(frame)["next"], "other")
   elif et in _NOT_VLAN_TPIDS:
     k = "other-tpid"
   elif et == 0x88cc:
@@ -677,6 +687,11 @@ def _run(case, sw, out, nt):
       raise HarnessError("generator produced an invalid input frame: %r %s" % (problems, frame.hex()))
     fclass, ntags, dis = frame_class(frame)
     is_frag = fclass.endswith("-fragment")
+    kd = {"frame": fclass}            # what byte-level damage is keyed by: the kind of frame ...
+    d6 = F12.dissect6(frame)
+    if ("ipv4" in dis and dis.get("ethertype") == F.ETH_IP and dis["ipv4"]["off"] + dis["ipv4"]["total_len"] < len(frame)) or (d6 and d6["trailer"]):
+      kd["trailer"] = "ip"            # ... and whether link-layer padding follows the IP datagram
+      out.label("trailer")
     if buffer_id is None:
       out.label("mode:" + mode)
     out.label("frame:" + fclass, "tags:%d" % ntags)
@@ -791,7 +806,7 @@ def _run(case, sw, out, nt):
                     F.mac_str(frame[:6]), in_port, _bits_name(icfg) if ingress_exists else "no such port", len(emitted), len(pktins)),
                 stp=frame[:6] == R.STP_MAC)
           return
-        if not _check_stats(out, sw, port_state, tx, rx_lo, rx_hi, fclass):
+        if not _check_stats(out, sw, port_state, tx, rx_lo, rx_hi, kd):
           return
         continue
       rx_hi[in_port][0] += 1
@@ -801,13 +816,13 @@ def _run(case, sw, out, nt):
         if emitted or pktins:
           _vkey(out, "fragment-not-dropped", "OFPC_FRAG_DROP is set but a fragment was processed")
           return
-        if not _check_stats(out, sw, port_state, tx, rx_lo, rx_hi, fclass):
+        if not _check_stats(out, sw, port_state, tx, rx_lo, rx_hi, kd):
           return
         continue
       if ingress_down and not emitted and not pktins:
         out.label("ingress-down-no-effect")
         nt[0] = True
-        if not _check_stats(out, sw, port_state, tx, rx_lo, rx_hi, fclass):
+        if not _check_stats(out, sw, port_state, tx, rx_lo, rx_hi, kd):
           return
         continue
       if ingress_down:
@@ -828,8 +843,6 @@ def _run(case, sw, out, nt):
     # every admitted reading (and, for a released buffer, every frame the packet-in was consistent with) is tried
     for cand, v in [(c, v) for c in candidates for v in _variants(c, lists)]:
       f0 = cand
-      if v["udp_zero"] == "fill":
-        f0 = R.fill_udp_checksum(cand)         # a datapath may compute the checksum the sender left out
       if mode == "miss":
         res = R.Result()
         res.events.append(("miss", f0))
@@ -894,6 +907,20 @@ def _run(case, sw, out, nt):
       rx_hi[in_port][1] += k * 65535
     if res.ambiguous is not None:
       out.label("ambiguous:" + res.ambiguous.split(" on ")[0].split(" 0x")[0])
+    for port_, fr_ in res.physical()[:4]:
+      dd = F.dissect(fr_)
+      d6_ = F12.dissect6(fr_)
+      l4 = None
+      if "udp" in dd and dd["ipv4"]["frag"] == 0 and not dd["ipv4"]["mf"]:
+        l4 = ("udp", dd["udp"]["checksum"])
+      elif "tcp" in dd and dd["ipv4"]["frag"] == 0 and not dd["ipv4"]["mf"]:
+        l4 = ("tcp", dd["tcp"]["checksum"])
+      elif d6_ and d6_["next"] in (6, 17) and d6_["payload_len"] >= 20:
+        o_ = d6_["l4_off"] + (6 if d6_["next"] == 17 else 16)
+        l4 = ("udp" if d6_["next"] == 17 else "tcp", int.from_bytes(fr_[o_:o_ + 2], "big"))
+      if l4 and ((l4[0] == "udp" and l4[1] == 0xffff) or (l4[0] == "tcp" and l4[1] == 0)):
+        out.label("checksum-boundary:" + l4[0])
+        nt[0] = True
     for k, why in res.inapplicable:
       out.label("inapplicable:" + why.split(" on ")[0])
       if k < len(res.events):
@@ -907,13 +934,13 @@ def _run(case, sw, out, nt):
       clause, disc, msg = failures[0][:3]
       disc = dict(disc)
       if clause in ("frame-bytes", "packet-in"):
-        disc["frame"] = fclass          # byte-level damage is a matter of the frame kind; port decisions are not
+        disc.update(kd)                 # byte-level damage is a matter of the frame kind; port decisions are not
         if buffer_id is not None:
           disc["buffer"] = buffer_origin  # ... or of what the switch kept in the buffer this packet-out released
       _vkey(out, clause, "step %d (%s, in_port %s, frame %s, actions %s):\n%s" % (
           si, mode, in_port, fclass, [SHORT[a["a"]] for a in actions], msg), **disc)
       return
-    if not _check_stats(out, sw, port_state, tx, rx_lo, rx_hi, fclass):
+    if not _check_stats(out, sw, port_state, tx, rx_lo, rx_hi, kd):
       return
 
   if out.violations:
@@ -963,8 +990,8 @@ def _check_stats(out, sw, port_state, tx, rx_lo, rx_hi, fclass, single=None, reb
     elif not (rx_lo[p][1] <= rxb <= rx_hi[p][1]):
       bad = ("rx_bytes", "port %d: rx_bytes %d, expected %d..%d" % (p, rxb, rx_lo[p][1], rx_hi[p][1]))
     if bad:
-      if bad[0].endswith("_bytes"):
-        _vkey(out, "port-stats", bad[1], field=bad[0], frame=fclass)
+      if bad[0].endswith("_bytes") and isinstance(fclass, dict):
+        _vkey(out, "port-stats", bad[1], field=bad[0], **fclass)
       else:
         _vkey(out, "port-stats", bad[1], field=bad[0])
       ok = False
@@ -1101,6 +1128,14 @@ def _ipv4_packet(draw, proto_kind):
   else:
     proto = draw(st.sampled_from([50, 51, 89, 132, 253]))   # protocols the datapath does not dissect
     seg = draw(_payload())
+  if proto in (6, 17) and whole and draw(st.integers(0, 9)) == 9:
+    # boundary value: a datagram whose checksum COMPUTES to zero (sent as 0xffff by UDP, as 0x0000 by TCP)
+    hl = 8 if proto == 17 else (seg[12] >> 4) * 4
+    if len(seg) < hl + 2:
+      seg = seg + b"\0\0"
+      if proto == 17:
+        seg = seg[:4] + struct.pack("!H", len(seg)) + seg[6:]
+    seg = F12.solve_checksum_word(seg, F.pseudo_header(src, dst, proto, len(seg)), hl, 6 if proto == 17 else 16, proto == 17)
   if fragoff != 0:
     seg = draw(_payload())                      # a later fragment carries no transport header
     if mf:
@@ -1115,8 +1150,51 @@ def _ipv4_packet(draw, proto_kind):
   return F.build_ipv4(src, dst, proto, seg, tos=tos, ident=ident, df=df and whole, mf=mf, frag=fragoff, ttl=ttl, options=options)
 
 
+_IP6 = [bytes.fromhex("20010db8000000000000000000000001"), bytes.fromhex("20010db80000000000000000000000ff"),
+        bytes.fromhex("fe80000000000000020000fffe000001"), bytes.fromhex("ff020000000000000000000000000001"), bytes(15) + b"\x01"]
+
+
+@st.composite
+def _ipv6_packet(draw):
+  src, dst = draw(st.sampled_from(_IP6)), draw(st.sampled_from(_IP6))
+  k = draw(st.integers(0, 5))
+  if k <= 2:
+    sport, dport = draw(_U16), draw(_U16)
+    sport += sport in _SPECIAL_UDP       # application dissection behind these ports is another matter (udp-app-port)
+    dport += dport in _SPECIAL_UDP
+    nh, seg = 17, F12.build_udp6(src, dst, sport, dport, draw(_payload()))
+  elif k <= 4:
+    nh, seg = 6, F12.build_tcp6(src, dst, draw(_U16), draw(_U16), draw(_payload()), seq=draw(_U32), ack=draw(_U32),
+                                flags=draw(st.sampled_from([0x02, 0x10, 0x18])), window=draw(_U16))
+  else:
+    nh, seg = 58, F12.build_icmp6_echo(src, dst, draw(_U16), draw(_U16), draw(_payload()), reply=draw(st.booleans()))
+  if nh in (6, 17) and draw(st.integers(0, 9)) == 9:
+    hl = 8 if nh == 17 else 20
+    if len(seg) < hl + 2:
+      seg = seg + b"\0\0"
+      if nh == 17:
+        seg = seg[:4] + struct.pack("!H", len(seg)) + seg[6:]
+    seg = F12.solve_checksum_word(seg, F12.pseudo_header6(src, dst, nh, len(seg)), hl, 6 if nh == 17 else 16, nh == 17)
+  return F12.build_ipv6(src, dst, nh, seg, tc=draw(st.sampled_from([0, 0xb8, 0xff])), flow=draw(st.sampled_from([0, 1, 0xfffff])),
+                        hlim=draw(st.sampled_from([1, 64, 255])))
+
+
 @st.composite
 def frame_strategy(draw):
+  fr = draw(_frame_no_trailer())
+  cls = frame_class(fr)[0]
+  t = draw(st.integers(0, 9))
+  if t >= 8 and (cls in ("tcp", "udp", "icmp", "ip-other", "arp", "later-fragment") or cls.startswith(("ipv6-", "tcp+"))) and "llc" not in F.dissect(fr):
+    # link-layer trailer: padding to the Ethernet minimum, or a few octets of anything
+    if t == 8 and len(fr) < 60:
+      fr = fr + bytes(60 - len(fr))
+    else:
+      fr = fr + draw(st.binary(min_size=1, max_size=8))
+  return fr
+
+
+@st.composite
+def _frame_no_trailer(draw):
   dst = draw(st.one_of(st.sampled_from([R.STP_MAC, R.STP_MAC, b"\xff" * 6]), _MAC, _MAC, _MAC))
   src = draw(_MAC)
   v = draw(st.integers(0, 19))
@@ -1127,7 +1205,9 @@ def frame_strategy(draw):
     vlan = [tag]
     if v == 19:
       vlan = [tag, [draw(st.integers(0, 7)), 0, draw(st.integers(0, 4095))]]
-  k = draw(st.integers(0, 21))
+  k = draw(st.integers(0, 23))
+  if k >= 22:
+    return F.build_eth(dst, src, F12.ETH_IPV6, draw(_ipv6_packet()), vlan=vlan)
   if k >= 20:
     # not a VLAN tag to OpenFlow 1.0, although what follows looks exactly like TCI + EtherType + packet
     inner = draw(st.sampled_from(["tcp", "udp", "icmp", "arp"]))
@@ -1539,6 +1619,108 @@ def _buffered_cases():
       yield {"nports": 3, "steps": [{"mode": "miss", "frame": fr, "in_port": 1}, {"mode": "buffer_out", "which": 0, "actions": second}]}
 
 
+def _l4_seg(proto, a, payload, v6):
+  if v6:
+    return (F12.build_udp6 if proto == 17 else F12.build_tcp6)(a["src"], a["dst"], a["sport"], a["dport"], payload)
+  if proto == 17:
+    return F.build_udp(a["src"], a["dst"], a["sport"], a["dport"], payload)
+  return F.build_tcp(a["src"], a["dst"], a["sport"], a["dport"], payload, seq=5, ack=6, flags=0x18)
+
+
+def _pseudo(proto, a, n, v6):
+  return F12.pseudo_header6(a["src"], a["dst"], proto, n) if v6 else F.pseudo_header(a["src"], a["dst"], proto, n)
+
+
+def _boundary_pair(proto, orig, final, payload, via, v6=False):
+  """-> (segment to send, {field: value the rewrite must carry}): after the fields of `orig` have become those of `final`
+  the segment's checksum computes to zero.  `via` names the free 16-bit word: "payload" (its first two octets), "sport", "dport"."""
+  hl = 8 if proto == 17 else 20
+  off = {"sport": 0, "dport": 2, "payload": hl}[via]
+  seg_f = _l4_seg(proto, final, payload, v6)
+  seg_f = F12.solve_checksum_word(seg_f, _pseudo(proto, final, len(seg_f), v6), off, 6 if proto == 17 else 16, proto == 17)
+  w = int.from_bytes(seg_f[off:off + 2], "big")
+  final = dict(final)
+  orig = dict(orig)
+  if via in ("sport", "dport"):
+    if orig[via] == final[via]:
+      orig[via] = w                      # not rewritten: the word is there from the start
+    final[via] = w
+  pl = seg_f[hl:]
+  seg_o = _l4_seg(proto, orig, pl, v6)
+  if _l4_seg(proto, final, pl, v6) != seg_f:
+    raise HarnessError("boundary construction is inconsistent")
+  return seg_o, final
+
+
+def _boundary_cases():
+  """Datagrams whose transport checksum COMPUTES to zero - as they arrive, or once one nw/tp rewrite has been applied.
+  UDP must carry 0xffff then (RFC 768), TCP 0x0000 (RFC 793); UDP over IPv6 (plain output only) likewise 0xffff."""
+  A, B = bytes.fromhex("0200000000a1"), bytes.fromhex("0200000000b2")
+  base = {"src": 0x0a000001, "dst": 0x0a000002, "sport": 1234, "dport": 4321}
+  rewrites = [None, ("set_nw_src", "src", 0xc0a80a01), ("set_nw_dst", "dst", 0xac100001), ("set_tp_src", "sport", 40000), ("set_tp_dst", "dport", 8080)]
+  for proto in (17, 6):
+    for rw in rewrites:
+      for via in ("payload", "sport", "dport"):
+        for payload in (b"\0\0boundary", b"\0\0odd"):
+          final = dict(base)
+          if rw:
+            final[rw[1]] = rw[2]
+          seg, final = _boundary_pair(proto, base, final, payload, via)
+          acts = [{"a": rw[0], "v": final[rw[1]]}] if rw else []
+          acts += [{"a": "output", "port": 2, "max_len": 0}, {"a": "output", "port": R.OFPP_CONTROLLER, "max_len": 0xffff}]
+          for vlan in (None, (1, 0, 5)):
+            fr = F.build_eth(B, A, F.ETH_IP, F.build_ipv4(base["src"], base["dst"], proto, seg, ident=41), vlan=vlan)
+            for mode in ("flow", "packet_out"):
+              step = {"mode": mode, "frame": fr, "in_port": 1, "actions": acts}
+              if mode == "flow":
+                step["match"] = "all"
+              yield {"nports": 3, "steps": [step]}
+  b6 = {"src": _IP6[0], "dst": _IP6[1], "sport": 1234, "dport": 4321}
+  for proto in (17, 6):
+    for via in ("payload", "sport", "dport"):
+      seg, _f = _boundary_pair(proto, b6, b6, b"\0\0boundary", via, v6=True)
+      for vlan in (None, (1, 0, 5)):
+        fr = F.build_eth(B, A, F12.ETH_IPV6, F12.build_ipv6(b6["src"], b6["dst"], proto, seg), vlan=vlan)
+        for mode in ("flow", "packet_out"):
+          step = {"mode": mode, "frame": fr, "in_port": 1,
+                  "actions": [{"a": "output", "port": 2, "max_len": 0}, {"a": "output", "port": R.OFPP_CONTROLLER, "max_len": 0xffff}]}
+          if mode == "flow":
+            step["match"] = "all"
+          yield {"nports": 3, "steps": [step]}
+
+
+def _trailer_cases():
+  """Frames with a link-layer trailer behind the IP datagram (padding to the 60-octet Ethernet minimum, or a few octets),
+  forwarded as they are and after each kind of rewrite: the trailer belongs to the frame and must come out again."""
+  A, B = bytes.fromhex("0200000000a1"), bytes.fromhex("0200000000b2")
+  S, D = 0x0a000001, 0x0a000002
+  udp4 = F.build_ipv4(S, D, 17, F.build_udp(S, D, 1234, 4321, b"ab"), ident=51)
+  tcp4 = F.build_ipv4(S, D, 6, F.build_tcp(S, D, 1234, 80, b"", seq=1, flags=0x02), ident=52)
+  icmp4 = F.build_ipv4(S, D, 1, F.echo(8, 1, 1, b"xy"), ident=53)
+  udp6 = F12.build_ipv6(_IP6[0], _IP6[1], 17, F12.build_udp6(_IP6[0], _IP6[1], 1234, 4321, b"ab"))
+  tcp6 = F12.build_ipv6(_IP6[0], _IP6[1], 6, F12.build_tcp6(_IP6[0], _IP6[1], 1234, 80, b""))
+  arp = F.build_arp(1, A, S, bytes(6), D)
+  frames = []
+  for et, pkt in ((F.ETH_IP, udp4), (F.ETH_IP, tcp4), (F.ETH_IP, icmp4), (F12.ETH_IPV6, udp6), (F12.ETH_IPV6, tcp6), (F.ETH_ARP, arp)):
+    for vlan in (None, (2, 0, 9)):
+      fr = F.build_eth(B, A, et, pkt, vlan=vlan)
+      frames.append(fr + bytes(max(1, 60 - len(fr))))          # padded to the minimum (or by one octet)
+      frames.append(fr + b"\xde\xad\xbe")                      # a short trailer that is not zeros
+  acts = [None, {"a": "set_vlan_vid", "v": 7}, {"a": "strip_vlan"}, {"a": "set_dl_dst", "v": bytes.fromhex("02aabbccdd02")},
+          {"a": "set_nw_src", "v": 0x0a0000fe}, {"a": "set_nw_tos", "v": 0x20}, {"a": "set_tp_dst", "v": 8081}]
+  for fr in frames:
+    for a in acts:
+      for mode in ("flow", "packet_out", "miss"):
+        if mode == "miss" and a is not None:
+          continue
+        step = {"mode": mode, "frame": fr, "in_port": 1}
+        if mode != "miss":
+          step["actions"] = ([a] if a else []) + [{"a": "output", "port": 2, "max_len": 0}, {"a": "output", "port": R.OFPP_CONTROLLER, "max_len": 0xffff}]
+        if mode == "flow":
+          step["match"] = "all"
+        yield {"nports": 3, "steps": [step]}
+
+
 def plan(tier):
   n = 4000 if tier == "quick" else 300000
   return [
@@ -1549,5 +1731,7 @@ def plan(tier):
     Enum("sequences", _sequence_cases, shards=16),
     Enum("tcp-option-layouts", _tcp_layout_cases, shards=4),
     Enum("buffered-packet-out", _buffered_cases, shards=2),
+    Enum("checksum-boundary", _boundary_cases, shards=2),
+    Enum("trailers", _trailer_cases, shards=2),
     Hyp("generated", case_strategy, examples=n, shards=16),
   ]
